@@ -71,8 +71,12 @@ package memstore
 //@        (called(WriteNext, 1) && callres(WriteNext, 1, 0) != nil ==> r0 != nil)
 //@   exit [iterator-error-reported] called(IteratorI.Next, 0) && callres(IteratorI.Next, 0, 2) != nil && !errIs(callres(IteratorI.Next, 0, 2), skiplist.Done) ==> r0 != nil
 //@   exit [success-means-writer-closed] r0 == nil ==> called(Close, 0) && callres(Close, 0, 0) == nil
+//@   call 0 of WriteNext: assert [C14,C01:entry-written-as-it-is] arg0 === k && arg1 === deref(v.value)
+//@   call 1 of WriteNext: assert [C14:live-entry-written-as-it-is] arg0 === k && arg1 === deref(v.value) && !isnil(arg1)
 //@   loop 0
 //@     invariant writer != nil && swReady(writer) && it != nil
+//@     invariant [C14,C01:with-tombstones-no-entry-is-skipped] includeTombstones ==>
+//@               wrCount(writer.dataWriter) - slIPos(it) == atloop(wrCount(writer.dataWriter) - slIPos(it))
 //@     invariant [failed-step-stops-the-flush] (called(WriteNext, 0) ==> callres(WriteNext, 0, 0) == nil) && (called(WriteNext, 1) ==> callres(WriteNext, 1, 0) == nil) &&
 //@               (called(IteratorI.Next, 0) ==> callres(IteratorI.Next, 0, 2) == nil)
 
@@ -154,6 +158,18 @@ package memstore
 //@   ensures [absent] old(cst(m, content(key))) == 0 ==> r0 == nil && cst(m, content(key)) == 0
 //@   ensures [deleted] old(cst(m, content(key))) != 0 ==> r0 == nil && cst(m, content(key)) == 1
 //@   ensures [other-keys-untouched] forall k Bytes :: k != old(content(key)) ==> cst(m, k) == old(cst(m, k)) && (old(cst(m, k)) != 0 ==> cvl(m, k) === old(cvl(m, k)))
+
+//@ func (*MemStore).FlushWithTombstones
+//@   props C14 C01 C06 C11
+//@   requires m.skipListMap != nil
+//@   call 0 of flushMemstore: assert [C14,C01,C06:tombstones-are-flushed] arg0 == m && arg1
+//@   exit [C11:flush-result-passed-on] called(flushMemstore, 0) && r0 == callres(flushMemstore, 0, 0)
+
+//@ func (*MemStore).Flush
+//@   props C14 C11
+//@   requires m.skipListMap != nil
+//@   call 0 of flushMemstore: assert [C14:live-entries-only] arg0 == m && !arg1
+//@   exit [C11:flush-result-passed-on] called(flushMemstore, 0) && r0 == callres(flushMemstore, 0, 0)
 
 //@ func (*MemStore).Tombstone
 //@   props C14
